@@ -1017,10 +1017,15 @@ func (h *harness) keystoreFlow(r *vh.RNG, i int) {
 	if _, err := signer(ks, acc); err == nil {
 		fail("sign-after-refused-timed-unlock", "signed")
 	}
-	if err := ks.TimedUnlock(acc, pass3, 80*time.Millisecond); err != nil {
+	tStart := time.Now()
+	if i != 0 && !c.Thorough() {
+		c.Count("keystore-flow/real-time-part-only-in-flow-0")
+	} else if err := ks.TimedUnlock(acc, pass3, 2*time.Second); err != nil {
 		fail("timed-unlock", err)
 	} else {
-		if a, err := signer(ks, acc); err != nil || a != acc.Address {
+		if a, err := signer(ks, acc); time.Since(tStart) > time.Second {
+			c.Count("keystore-flow/timed-unlock-undecided(machine too slow)")
+		} else if err != nil || a != acc.Address {
 			fail("sign-after-timed-unlock", fmt.Sprint(a, err))
 		}
 		if !keystore.NoSignMode() {
@@ -1046,9 +1051,17 @@ func (h *harness) keystoreFlow(r *vh.RNG, i int) {
 				fail("sign-with-wrong-passphrase", "signed")
 			}
 		}
-		time.Sleep(200 * time.Millisecond)
-		if _, err := signer(ks, acc); err == nil {
-			fail("sign-after-timed-unlock-expired", "signed")
+		// expiry must come eventually: poll well beyond the timeout before raising an alarm
+		expired := false
+		for time.Since(tStart) < 30*time.Second {
+			if _, err := signer(ks, acc); err != nil {
+				expired = true
+				break
+			}
+			time.Sleep(100 * time.Millisecond)
+		}
+		if !expired {
+			fail("sign-after-timed-unlock-expired", "still signing 30 s after a 2 s timed unlock")
 		}
 	}
 	// tamper with the stored file: IV edit, then unlock must fail or keep the address
@@ -1383,7 +1396,9 @@ func genHistory(r *vh.RNG, n int) []string {
 func unhx(s string) string { return string(vh.UnHex(s)) }
 
 // runHistory executes the operations on one KeyStore and evaluates the property after every step
-func runHistory(dir string, toks []string, seed uint64) hresult {
+func runHistory(dir string, toks []string, seed uint64, realTime ...bool) hresult {
+	logical := len(realTime) == 0 // expiry driven by the logical clock (VerifFireExpiry); real timers only when asked
+
 	res := hresult{toks: toks}
 	ks := keystore.NewKeyStore(dir, 2, 1)
 	r := vh.NewRNG(seed)
@@ -1463,7 +1478,11 @@ func runHistory(dir string, toks []string, seed uint64) hresult {
 			case "0":
 				err = ks.Unlock(a.acc, pass)
 			case "S":
-				err = ks.TimedUnlock(a.acc, pass, shortUnlock)
+				if logical {
+					err = ks.TimedUnlock(a.acc, pass, time.Hour)
+				} else {
+					err = ks.TimedUnlock(a.acc, pass, shortUnlock)
+				}
 				mtok = fmt.Sprintf("tun:%d:%s:10", idx, f[2])
 			default:
 				err = ks.TimedUnlock(a.acc, pass, time.Hour)
@@ -1533,7 +1552,16 @@ func runHistory(dir string, toks []string, seed uint64) hresult {
 				out = signOK(sig, e, a, h)
 			}
 		case "wait":
-			time.Sleep(waitSleep)
+			if logical {
+				for _, x := range accts {
+					if x.timed {
+						ks.VerifFireExpiry(x.acc.Address)
+						x.timed = false
+					}
+				}
+			} else {
+				time.Sleep(waitSleep)
+			}
 			for _, x := range accts {
 				if x.timed {
 					for time.Now().Before(x.hi.Add(timeMargin)) {
@@ -1553,7 +1581,7 @@ func runHistory(dir string, toks []string, seed uint64) hresult {
 		}
 		// a pending short unlock must lie clearly in the future, otherwise what this step should have seen is undecided
 		for _, x := range accts {
-			if x.timed && !end.Before(x.lo.Add(-timeMargin)) {
+			if !logical && x.timed && !end.Before(x.lo.Add(-timeMargin)) {
 				res.ambiguous = true
 			}
 		}
@@ -1563,7 +1591,7 @@ func runHistory(dir string, toks []string, seed uint64) hresult {
 		after := locks()
 		if t2 := time.Now(); true {
 			for _, x := range accts {
-				if x.timed && !t2.Before(x.lo.Add(-timeMargin)) {
+				if !logical && x.timed && !t2.Before(x.lo.Add(-timeMargin)) {
 					res.ambiguous = true
 				}
 			}
@@ -1664,7 +1692,11 @@ func (h *harness) histories() {
 		go func(i int) {
 			sem <- struct{}{}
 			d, _ := os.MkdirTemp(h.dir, "hist")
-			results[i] = runHistory(d, hists[i], seeds[i])
+			if i == 2 || i == 3 {
+				results[i] = runHistory(d, hists[i], seeds[i], true) // two histories keep the real 300 ms timers (undecided when the machine is too slow)
+			} else {
+				results[i] = runHistory(d, hists[i], seeds[i])
+			}
 			<-sem
 			done <- i
 		}(i)
@@ -1828,8 +1860,14 @@ func main() {
 		}
 	}
 	phase("forged-done")
+	// 3b'. address asked for / address member / derived address made to disagree, through GetKey
+	for i := 0; i+1 < len(specs) && i < c.Scale(6, 60); i++ {
+		h.addressMismatch(specs[i], specs[i+1])
+	}
 	// 3c. stateful KeyStore histories against the lock-state machine
 	h.histories()
+	// 3d. KeyStore histories against the concrete model (key files compared; logical clock)
+	h.storeHistories()
 	phase("histories-done")
 	// 4. KeyStore API
 	for i := 0; i < c.Scale(4, 24); i++ {
